@@ -100,7 +100,7 @@ var Profiles = map[string]func() Profile{
 		p := base()
 		p.Name = "lock"
 		p.W = wts(int(KNewEntity), 12, int(KNewBatch), 7, int(KAdd), 6, int(KRemove), 4, int(KExchange), 3, int(KSet), 4, int(KWrite), 5,
-			int(KSetRel), 3, int(KRemoveEntity), 5, int(KRegFilter), 2, int(KUnregFilter), 1,
+			int(KSetRel), 3, int(KRemoveEntity), 5, int(KRegFilter), 7, int(KUnregFilter), 6,
 			int(KOpenQuery), 22, int(KStepQuery), 14, int(KCloseQuery), 10, int(KMisuse), 10, int(KEmit), 2, int(KStats), 1, int(KRemoveEntities), 1, int(KReset), 2,
 			int(KAddBatch), 3, int(KRemoveBatch), 2, int(KRegObs), 5, int(KUnregObs), 3, int(KSetRelBatch), 4, int(KExchangeBatch), 2, int(KCopy), 1, int(KShrink), 1)
 		p.QuerySlots = 64
